@@ -57,6 +57,16 @@ def queries(backend):
         out.append((f"ev-seed:{sn}", f"ds.Select(lambda e: {seq}.Aggregate({init}, lambda acc, v: {body}))"))
         if body == "acc + v":
             out.append((f"ev-seed:{sn}", f"ds.Select(lambda e: ({seq}.Aggregate({init}, lambda acc, v: {body}), {B}.Count()))"))
+    # ---- the total of a seeded aggregate CONSUMED by something that takes its place from where the translator currently stands
+    # (a comparison, an event filter, a function, a conditional's test): the accumulator is read where it is still in scope
+    for (sn, seq), init in itertools.product(list(ev_seqs.items())[:2], ["-1", f"{B}.Count()", f"{B}.Count() + 1", "-0.5"]):
+        agg = f"{seq}.Aggregate({init}, lambda acc, v: acc + v)"
+        out.append((f"ev-seed-use:{sn}", f"ds.Select(lambda e: {agg} > 2)"))
+        out.append((f"ev-seed-use:{sn}", f"ds.Where(lambda e: {agg} > 1).Select(lambda e: {A}.Count())"))
+        out.append((f"ev-seed-use:{sn}", f"ds.Select(lambda e: abs({agg}))"))
+        out.append((f"ev-seed-use:{sn}", f"ds.Select(lambda e: (1 if {agg} > 2 else 0))"))
+        out.append((f"ev-seed-use:{sn}", f"ds.Select(lambda e: ({agg} > 2, {A}.Count()))"))
+        out.append((f"ev-seed-use:{sn}", f"ds.Select(lambda e: {A}.Where(lambda j: j.pt() < {agg}).Count())"))
     for (sn, seq), init in itertools.product(in_seqs_early(A, B).items(), ["j.pt() + 1", f"{B}.Count() + j.nTrk()", "j.tags().Count() * 2", "-j.pt()", f"{B}.Count() + 1"]):
         agg = f"{seq}.Aggregate({init}, lambda acc, v: acc + v)"
         out.append((f"obj-seed:{sn}", f"ds.Select(lambda e: {A}.Select(lambda j: {agg}))"))
